@@ -1,0 +1,67 @@
+//go:build verif
+// +build verif
+
+package criteria_mixing
+
+// Contracts for gocv (comment-only; compiled out unless the tag "verif" is set, and empty then).
+
+//@ spec mixed(r real, a real, b real) real = a * r + b * (1.0 - r)
+
+//@ func (*CriteriaMixingParams).validate
+//@   property C18 C20
+//@   panics_iff [ratio] !(0.0 <= p.MixingRatio && p.MixingRatio <= 1.0)
+
+//@ func selectCriteriaToMix
+//@   property C18
+//@   fnparam generator ensures 0.0 <= result && result < 1.0
+//@   requires len(params.Criteria) >= 2
+//@   ensures [two_distinct] exists i int, j int :: 0 <= i && i < len(params.Criteria) && 0 <= j && j < len(params.Criteria) && i != j
+//@             && result.c1 == params.Criteria[i] && result.c2 == params.Criteria[j]
+
+//@ func (*criteriaToMix).criterion
+//@   property C18
+//@   ensures [gain_with_target_range] result.Type == model.Gain && result.ValuesRange == valRange
+
+//@ func (*criteriaToMix).mix
+//@   property C18
+//@   ensures [components] result.c1 != nil && result.c2 != nil && fresh(result) && fresh(result.result)
+//@   ensures [formula] forall a string :: a in result.c1 ==> a in result.c2 && a in result.result && result.result[a] == mixed(props.MixingRatio, result.c1[a], result.c2[a])
+//@   ensures [only] forall a string :: a in result.result ==> a in result.c1
+//@   loop 1 invariant [ctx] fresh(resultValues) && resultValues != nil && resultValues != c1Values && resultValues != c2Values
+//@   loop 1 invariant [formula] forall a string :: seen(a) ==> a in c2Values && a in resultValues && resultValues[a] == mixed(props.MixingRatio, c1Values[a], c2Values[a])
+//@   loop 1 invariant [only] forall a string :: a in resultValues ==> seen(a)
+
+//@ lemma [C18] mixed_is_between: forall r real, a real, b real
+//@   requires 0.0 <= r && r <= 1.0
+//@   ensures  min(a, b) <= mixed(r, a, b) && mixed(r, a, b) <= max(a, b)
+//@ lemma [C18] rescaled_in_target: forall c model.Criterion, v real, cur utils.ValueRange, tgt utils.ValueRange
+//@   requires cur.Min <= v && v <= cur.Max && cur.Min < cur.Max && tgt.Min == 0.0 && tgt.Max >= 0.0
+//@   ensures  0.0 <= model.rescaled(c, v, cur, (tgt.Max - tgt.Min) / (cur.Max - cur.Min), tgt)
+//@   ensures  model.rescaled(c, v, cur, (tgt.Max - tgt.Min) / (cur.Max - cur.Min), tgt) <= tgt.Max
+
+//@ func referenceCriterion
+//@   property C18
+//@   requires model.distinctCriteria(params.Criteria) && len(params.Criteria) > 0
+//@   ensures [is_existing_criterion] result != nil && exists j int :: 0 <= j && j < len(params.Criteria) && *result == params.Criteria[j]
+
+//@ func updateAlternatives
+//@   property C18 C07
+//@   ensures [shape] fresh(result) && fresh(*result) && len(*result) == len(allAlternatives)
+//@   ensures [extended] forall i int :: 0 <= i && i < len(allAlternatives) ==> model.extendedBy((*result)[i], allAlternatives[i], newCriterion.Id) && fresh((*result)[i].Criteria)
+
+//@ func (*CriteriaMixing).Apply
+//@   property C18 C07
+//@   requires model.coherent(*listener, *current) && model.coherent(*listener, *original) && len(original.Criteria) > 0
+//@   requires forall i int, j int :: 0 <= i && i < j && j < len(current.ConsideredAlternatives) ==> current.ConsideredAlternatives[i].Id != current.ConsideredAlternatives[j].Id
+//@   requires forall i int, j int :: 0 <= i && i < j && j < len(current.NotConsideredAlternatives) ==> current.NotConsideredAlternatives[i].Id != current.NotConsideredAlternatives[j].Id
+//@   requires forall i int, j int :: 0 <= i && i < len(current.ConsideredAlternatives) && 0 <= j && j < len(current.NotConsideredAlternatives) ==> current.ConsideredAlternatives[i].Id != current.NotConsideredAlternatives[j].Id
+//@   ensures [nothing_below_two] len(current.Criteria) < 2 ==> result.DMP == current && isnil(result.Props)
+//@   ensures [one_gain_criterion_appended] len(current.Criteria) >= 2 ==> len(result.DMP.Criteria) == len(current.Criteria) + 1
+//@             && result.DMP.Criteria[len(current.Criteria)].Type == model.Gain
+//@             && (forall k int :: 0 <= k && k < len(current.Criteria) ==> result.DMP.Criteria[k] == current.Criteria[k])
+//@   ensures [new_id_unused] len(current.Criteria) >= 2 ==> forall k int :: 0 <= k && k < len(current.Criteria) ==> current.Criteria[k].Id != result.DMP.Criteria[len(current.Criteria)].Id
+//@   ensures [same_alternatives] len(current.Criteria) >= 2 ==> len(result.DMP.ConsideredAlternatives) == len(current.ConsideredAlternatives) && len(result.DMP.NotConsideredAlternatives) == len(current.NotConsideredAlternatives)
+//@   ensures [values_preserved] len(current.Criteria) >= 2 ==>
+//@                (forall i int :: 0 <= i && i < len(current.ConsideredAlternatives) ==> model.extendedBy(result.DMP.ConsideredAlternatives[i], current.ConsideredAlternatives[i], result.DMP.Criteria[len(current.Criteria)].Id))
+//@             && (forall i int :: 0 <= i && i < len(current.NotConsideredAlternatives) ==> model.extendedBy(result.DMP.NotConsideredAlternatives[i], current.NotConsideredAlternatives[i], result.DMP.Criteria[len(current.Criteria)].Id))
+//@   ensures [parameters_extended] len(current.Criteria) >= 2 ==> model.coversAll(*listener, result.DMP.MethodParameters, result.DMP.Criteria)
